@@ -293,7 +293,7 @@ def collect_info(r):
         'digest': w.digest(), 'vt': w.elapsed_s(), 'steps': w.steps,
         'faults': dict(w.faults), 'probes': dict(w.probes),
         'ordinal_fired': w.ordinal_fired, 'preempts': w.preempts,
-        'ncalls': len(r.calls), 'nchunks': len(child.chunks),
+        'ncalls': len(r.calls), 'nchunks': len(getattr(child, 'chunks', ())),
         'sigs': [repr(s) for s in sorted(w.sigs, key=repr)],
     }
     return info
